@@ -128,3 +128,35 @@ CONTRACTS += [
                        '0, len(result), 0, len(result))')],
              note='tokens handed in by the sub-extractors are assumed non-empty and inside the text (R1 at their ~60 call sites)'),
 ]
+
+QP = RT + 'utilities.py::QueryProcessor.'
+CONTRACTS += [
+    Contract('c01.preprocess', QP + 'preprocess', ['C01'],
+             params=dict(source=Str(), case_sensitive=Const(False), recode=Bool()),
+             ensures=[('normalisation-preserves-the-length-so-offsets-stay-valid', 'len(result) == len(source)')],
+             note='str.replace of one character by one character and str.lower are library models (DESIGN 4.4): the set of code '
+                  'points whose lower() is longer than one character is computed from the running CPython'),
+]
+
+CONTRACTS += [
+    Contract('c01.lower_keep_length', QP + 'lower_keep_length', ['C01'], returns=Str(),
+             params=dict(source=Str()),
+             loops={0: LoopSpec(invariant=['len(chars) == len(source)',
+                                           'forall(lambda k: len(chars[k]) == 1, 0, len(chars))'])},
+             ensures=[('length-preserved', 'len(result) == len(source)')]),
+    Contract('c01.preprocess.case_sensitive', QP + 'preprocess', ['C01'], modular=[QP + 'to_lower_term_sensitive'],
+             params=dict(source=Str(), case_sensitive=Const(True), recode=Bool()),
+             ensures=[('normalisation-preserves-the-length-so-offsets-stay-valid', 'len(result) == len(source)')]),
+    Contract('c01.to_lower_term_sensitive', QP + 'to_lower_term_sensitive', ['C01'], returns=Str(),
+             modular=[QP + 'lower_keep_length', QP + 'apply_reverse'],
+             params=dict(input_str=Str()),
+             regex_env={'*': {'count': 2}},
+             ensures=[('length-preserved', 'len(result) == len(input_str)')]),
+    Contract('c01.apply_reverse', QP + 'apply_reverse', ['C01'], modifies=['string_chars'],
+             params=dict(idx=Int(0), string_chars=Arr('str'), value=Str()),
+             requires=['idx + len(value) <= len(string_chars)', 'forall(lambda k: len(string_chars[k]) == 1, 0, len(string_chars))'],
+             loops={0: LoopSpec(invariant=['len(string_chars) == len(old(string_chars))',
+                                           'forall(lambda k: len(string_chars[k]) == 1, 0, len(string_chars))'])},
+             ensures=[('same-number-of-single-characters',
+                       'len(string_chars) == len(old(string_chars)) and forall(lambda k: len(string_chars[k]) == 1, 0, len(string_chars))')]),
+]
